@@ -383,6 +383,8 @@ PROPS["C05"]["level_text"] += " The per-message step is proved through the real 
 PROPS["C20"]["verus"].append({"unit": U5, "fns": ["Chitchat::process_delta"]})
 PROPS["C20"]["level_text"] += " Chitchat::process_delta is proved to reach the callback invocation only when that flag is true (the call site carries the flag as a ghost argument that Verus checks), i.e. never for messages that only apply incremental updates, are rejected or carry nothing."
 PROPS["C20"]["level_note"] = "The callback itself is a Box<dyn Fn()> (opaque); that it is invoked exactly once - not zero times - when the flag is raised is read off the three-line call site and checked by the bounded driver c20_callback with a counting callback (0/1/2 resets per message, newly created members)."
+PROPS["C12"]["verus"].append({"unit": U5, "fns": ["Chitchat::update_nodes_liveness"]})
+PROPS["C12"]["level_text"] += " The two self-id guards of Chitchat::update_nodes_liveness are proved (watch-channel part elided, R11): the local node is never handed to the detector for evaluation and never removed whatever the node GC returns; every other known member is evaluated; an evaluation never adds members."
 U2_CODEC = ["ChitchatId::serialize", "ChitchatId::serialized_len", "Heartbeat::serialize", "Heartbeat::serialized_len", "NodeDigest::serialize",
             "NodeDigest::serialized_len", "alloc::string::String::serialize", "alloc::string::String::serialized_len",
             "DeletionStatusMutation::serialize", "DeletionStatusMutation::serialized_len", "KeyValueMutationRef::serialize",
